@@ -99,6 +99,10 @@ func (dist *ChiSquaredDistribution) Pdf(r Scalar, x ConstScalar) error {
 }
 
 func (dist *ChiSquaredDistribution) LogCdf(r Scalar, x ConstScalar) error {
+  if x.GetFloat64() <= 0.0 {
+    r.SetFloat64(math.Inf(-1))
+    return nil
+  }
   if err := dist.Cdf(r, x); err != nil {
     return err
   }
@@ -107,6 +111,10 @@ func (dist *ChiSquaredDistribution) LogCdf(r Scalar, x ConstScalar) error {
 }
 
 func (dist *ChiSquaredDistribution) Cdf(r Scalar, x ConstScalar) error {
+  if x.GetFloat64() <= 0.0 {
+    r.SetFloat64(0.0)
+    return nil
+  }
   r.Div(x, dist.C)
   r.GammaP(dist.L.GetFloat64(), r)
   return nil
